@@ -53,6 +53,25 @@ def mat_spec(draw, max_side=3, max_patterns=6, overrides=True):
     return {'src': src, 'tgt': tgt, 'excl': excl, 'par': par, 'patterns': patterns}
 
 
+@st.composite
+def par_sensitive_spec(draw):
+    """Settings whose implied parallel-connection limit depends on the existence pattern: an open-ended node next to a
+    node carrying the largest finite degree, with a pattern in which that node is absent / overridden"""
+    k = draw(st.sampled_from([3, 3, 3, 4, 2]))   # implied limit is never below 2
+    big = {'conns': sorted({draw(st.integers(0, k-1)), k}), 'rep': True}
+    open_ = {'min': draw(st.integers(0, 1)), 'rep': True}
+    side = draw(st.sampled_from(['src', 'tgt']))
+    mine = [open_, big] if draw(st.booleans()) else [big, open_]
+    i_big = mine.index(big)
+    other = [{'min': draw(st.integers(0, 1)), 'rep': True} for _ in range(draw(st.integers(1, 2)))]
+    pat = {'src': {}, 'tgt': {}}
+    pat[side][str(i_big)] = draw(st.sampled_from([[0], [0], [1], [0, 1]]))
+    patterns = [{'src': {}, 'tgt': {}}, pat] if draw(st.booleans()) else [pat, {'src': {}, 'tgt': {}}]
+    ms = {'src': mine if side == 'src' else other, 'tgt': other if side == 'src' else mine, 'excl': [],
+          'par': draw(st.sampled_from([None, None, k])), 'patterns': patterns}
+    return ms
+
+
 def all_existence_patterns(n_src, n_tgt):
     out = []
     for se in itertools.product([True, False], repeat=n_src):
